@@ -32,7 +32,7 @@ fn count_matrix(out: &mut ScenarioOut, o: &Outcome) {
 /// Turn the first complaint of a failing explicit-schedule scenario into a
 /// violation with a minimised witness.
 fn report(out: &mut ScenarioOut, part: &str, scn: &Scn, c: &Complaint, minimise_it: bool) {
-    let min = if minimise_it { minimise(scn, &c.class, ROUND_CAP, 250) } else { scn.clone() };
+    let min = if minimise_it && crate::oracle::minimise_ticket() { minimise(scn, &c.class, ROUND_CAP, 250) } else { scn.clone() };
     let o = run_scn(&min, ROUND_CAP);
     let v = judge(&min, &o);
     let c2 = v
@@ -62,63 +62,64 @@ fn explicit_of(scn: &Scn, o: &Outcome) -> Scn {
 /// finding triaged so far (regression cases for `fixed`, reproducers for
 /// `known` entries).
 pub fn directed() -> Vec<(&'static str, Scn)> {
-    let d = |total: usize, w: usize, r: usize| DirSpec {
-        total,
-        wchunks: vec![w.max(1)],
-        rbufs: vec![r.max(1)],
-        ..DirSpec::default()
-    };
-    let mk = |cfg: Cfg, c2s: DirSpec, s2c: DirSpec, faults: &[&str]| Scn {
-        cfg,
-        c2s,
-        s2c,
-        sched: Sched::Explicit(faults.iter().filter_map(|f| Fault::parse(f)).collect()),
-        order: Order::Emission,
-    };
-    let quiet = |mut x: DirSpec, delay: u32| {
-        x.write_delay = delay;
-        x
-    };
-    let paused = |mut x: DirSpec, p: u32| {
-        x.write_pause = p;
-        x
-    };
-    let slow = |mut x: DirSpec, p: u32| {
-        x.read_pause = p;
-        x
-    };
+    let scn = |v: Value| Scn::from_json(&v).expect("directed scenario");
     vec![
-        ("baseline", mk(Cfg::default(), d(3000, 1000, 4096), d(3000, 1000, 4096), &[])),
-        // F5: a lost pure ACK; the retransmitted segment must be re-ACKed
+        (
+            "baseline",
+            scn(json!({"cfg": {}, "c2s": {"total": 3000, "wchunks": [1000], "rbufs": [4096]},
+                "s2c": {"total": 3000, "wchunks": [1000], "rbufs": [4096]}, "sched": {"explicit": []}})),
+        ),
+        // a lost pure ACK: the retransmitted segment must be re-ACKed
         (
             "lost-ack",
-            mk(Cfg::default(), paused(d(10, 5, 4096), 25), quiet(d(0, 1, 4096), 100), &["s2c:ACK#0:drop"]),
+            scn(json!({"cfg": {}, "c2s": {"total": 10, "wchunks": [5], "rbufs": [4096], "write_pause": 25},
+                "s2c": {"total": 0, "write_delay": 100}, "sched": {"explicit": ["s2c:ACK#0:drop"]}})),
         ),
-        // F6: zero window reopened by small reads
+        // a segment past a gap must be answered too (the duplicate ACK is what
+        // tells the sender about a closed window after a reordering)
         (
-            "small-reads-zero-window",
-            mk(Cfg { recv_cap: 8, ..Cfg::default() }, d(40, 40, 1), d(0, 1, 4096), &[]),
+            "zero-window-small-reads",
+            scn(json!({"cfg": {"recv_cap": 8}, "c2s": {"total": 40, "wchunks": [40], "rbufs": [1]},
+                "s2c": {"total": 0}, "sched": {"explicit": []}})),
         ),
-        // lost handshake ACK with a server-to-client-only transfer
+        // lost handshake ACK, nothing to send from the client
         (
             "lost-handshake-ack",
-            mk(Cfg::default(), quiet(d(0, 1, 4096), 100), d(100, 100, 4096), &["c2s:HSACK#0:drop"]),
+            scn(json!({"cfg": {}, "c2s": {"total": 0, "write_delay": 100},
+                "s2c": {"total": 100, "wchunks": [100], "rbufs": [4096]}, "sched": {"explicit": ["c2s:HSACK#0:drop"]}})),
         ),
-        // lost window update after a zero window
+        // the window update reopening a zero window is lost while the sender
+        // has nothing in flight
         (
             "lost-window-update",
-            mk(Cfg { recv_cap: 8, ..Cfg::default() }, d(40, 40, 8), d(0, 1, 4096), &["s2c:WINUPD#0:drop"]),
+            scn(json!({"cfg": {"recv_cap": 8}, "c2s": {"total": 40, "wchunks": [8], "rbufs": [8], "read_pause": 4, "write_pause": 2},
+                "s2c": {"total": 0}, "sched": {"explicit": ["s2c:WINUPD#0:drop"]}})),
         ),
-        // F7: last ACK of the FIN exchange lost while the LastAck side still
-        // has unread data
+        // last ACK of the FIN exchange lost while the LastAck side still has
+        // unread data
         (
             "lost-last-ack",
-            mk(
-                Cfg::default(),
-                d(0, 1, 4096),
-                slow(d(0, 1, 4096), 0),
-                &[],
-            ),
+            scn(json!({"cfg": {}, "c2s": {"total": 5, "wchunks": [5], "rbufs": [4096], "read_pause": 12},
+                "s2c": {"total": 0, "rbufs": [16]}, "sched": {"explicit": ["c2s:ACK#0:drop"]}})),
+        ),
+        // ACKs of the original transmissions arrive after a go-back-N rewind
+        // that could not re-emit (closed window)
+        (
+            "ack-after-rewind",
+            scn(json!({"cfg": {"mtu": 140, "recv_cap": 100}, "c2s": {"total": 300, "wchunks": [300], "rbufs": [1]},
+                "s2c": {"total": 0, "rbufs": [1]},
+                "sched": {"explicit": ["s2c:ACK#0:hold2", "s2c:ACK#1:hold2", "s2c:ACK#2:hold2", "s2c:ACK#3:hold2",
+                    "s2c:WINUPD#0:drop", "s2c:FIN#0:drop", "c2s:DATA#3:hold2", "c2s:DATA#4:hold1", "c2s:DATA#5:hold2",
+                    "c2s:FIN#1:hold1", "s2c:FIN#1:hold2", "s2c:ACK#4:hold1", "s2c:ACK#5:hold1", "s2c:WINUPD#1:hold1"]}})),
+        ),
+        // retransmit attempts spent on the handshake must not count against
+        // the first segment; data riding on the handshake-completing segment
+        (
+            "handshake-retx-budget",
+            scn(json!({"cfg": {"send_cap": 1, "recv_cap": 1000}, "c2s": {"total": 5, "wchunks": [5], "rbufs": [1]},
+                "s2c": {"total": 0, "rbufs": [1]},
+                "sched": {"explicit": ["c2s:SYN#0:hold1", "c2s:HSACK#0:hold1", "s2c:ACK#0:drop", "c2s:DATA#2:drop",
+                    "c2s:DATA#4:hold2", "s2c:WINUPD#0:drop"]}})),
         ),
     ]
 }
@@ -325,7 +326,23 @@ fn run_e2e(ctx: &Ctx, idx: u64) -> ScenarioOut {
 
 pub fn e2e_out(d: &E2e) -> ScenarioOut {
     let mut out = ScenarioOut::default();
-    let o = e2e::run(d);
+    let o = match std::panic::catch_unwind(|| e2e::run(d)) {
+        Ok(o) => o,
+        Err(p) => {
+            let msg = vcore::take_last_panic().unwrap_or_else(|| vcore::panic_message(&*p));
+            if !msg.contains("turmoil-net") {
+                std::panic::resume_unwind(p);
+            }
+            out.digest = vcore::digest_str(&d.canon());
+            out.violate(
+                "panic",
+                format!("{PROP}|panic||{}", d.canon()),
+                format!("turmoil-net panicked inside the fixture: {msg} — {}", d.canon()),
+                json!({"part": "e2e", "e2e": d.to_json()}),
+            );
+            return out;
+        }
+    };
     let complaints = e2e::judge(d, &o);
     let mut h = vcore::Fnv::new();
     h.write_str(&d.canon());
